@@ -265,6 +265,8 @@ func (w *world) resetToA() bool {
 		cfg.Quotas = map[string]string{"q.yaml": quotaFile}
 		// a file the engine does not load (only *.yaml is) but which is part of the configuration on disk
 		cfg.Flows["parked.yaml.disabled"] = "name: parked\n# kept by the operator for later\n"
+		// path params kept in a sub-directory (the loader walks the tree)
+		cfg.PathParams = map[string]string{"team-a/nested.yaml": "pathParams:\n  - url: nested.com/orders/{id}\n"}
 	}
 	sim.WriteConfDir(cfg)
 	code, body := w.eng.Admin("POST", "/load_flows", nil)
@@ -296,6 +298,13 @@ func (w *world) apply(u update, failAt int, alsoFail int) (int, string, []faultC
 		return nil
 	})
 	defer verifhook.SetFault(nil)
+	if failAt < 0 {
+		// HAProxy's management API refuses the (-failAt)-th endpoint registration of this update: a step of the
+		// update that fails after the new flows were built
+		w.eng.HAProxy.Reset()
+		w.eng.HAProxy.FailOnce("PUT /managed_endpoint", -failAt-1)
+		defer w.eng.HAProxy.FailOnce("", 0)
+	}
 	var code int
 	var body string
 	panicked := sim.Guard(w.v, "C08/update-panicked/"+u.Endpoint+"/"+u.Name, replay{Update: u, FaultAt: failAt, AlsoFaultAt: alsoFail}, func() {
@@ -327,6 +336,18 @@ func (w *world) runOne(u update, failAt int, alsoFail int, points *[]faultCall) 
 	}
 	rp := replay{Update: u, FaultAt: failAt, AlsoFaultAt: alsoFail, Points: calls, Status: code, Body: body}
 	cause := w.tag + "no-fault/" + u.Name
+	if failAt < 0 {
+		refused := false
+		for _, rq := range w.eng.HAProxy.Snapshot() {
+			refused = refused || strings.HasPrefix(rq, "FAILED ")
+		}
+		if !refused {
+			w.v.Count("haproxy_refusal_not_reached", 1)
+			return
+		}
+		w.v.Count("updates_during_which_haproxy_refused_a_registration", 1)
+		cause = w.tag + "haproxy-refuses-a-registration"
+	}
 	if failAt > 0 {
 		if failAt > len(calls) {
 			w.v.Count("fault_point_not_reached", 1)
@@ -563,6 +584,15 @@ func main() {
 		v.Count("fault_points_recorded", len(points))
 		for k := 1; k <= len(points); k++ {
 			jobs = append(jobs, job{u, k, 0})
+		}
+	}
+	idx = 0
+	for _, u := range us {
+		mine := idx%args.Batches == args.Batch
+		idx++
+		if mine && len(u.FlowDefs)+len(u.RawFlows) > 0 {
+			w.runOne(u, -1, 0, nil)
+			w.runOne(u, -2, 0, nil)
 		}
 	}
 	for _, j := range jobs {
